@@ -18,7 +18,8 @@ target dtype is built as a float ('f') or complex ('c') kind letter plus the ite
 never an integer kind; complex input is either untouched by the site or explicitly mapped to a complex kind; item size 1 is
 widened to 2 or refused; the converted data are computed after the cast (multiplication happens in the float type); the
 two conversion routes carry the overflow warning for 4- and 8-byte integers against the thresholds 2**24+1 and 2**53+1.
-A sibling that lacks a test the others have is reported (Engler-style contradiction)."""
+A sibling that lacks a test the others have is reported (Engler-style contradiction).
+(R3) copying conversions multiply the data by the float factor on every path (shared with C03-R2); (R4) no step of an equivalence formula has integer semantics (shared with C09-R8)."""
 LEVEL_NOTE = """Undecided: the rounding of the converted values and NumPy's casting behaviour itself. For 1-byte operands of
 the ufunc / out= sites the refusal is NumPy's own rejection of the dtype string 'f1' (trusted)."""
 EXPLANATION = LEVEL_TEXT
